@@ -64,6 +64,11 @@ TIERS = {
             # a named reference, two partial applications of it, one call
             ('refs', dict(
                 Templates={"for0"}, MaxN=1, MaxEvents=4, MaxMakers=3, PartialIn={"for0"}, RefIn={"for0"},
+                TwoHoles=False)),
+            # ... with two placeholders (one partial application: a shared argument list with unfilled
+            # placeholders computes garbage the implementation-shaped model does not predict)
+            ('refs2', dict(
+                Templates={"for0"}, MaxN=1, MaxEvents=4, MaxMakers=2, PartialIn={"for0"}, RefIn={"for0"},
                 TwoHoles=True)),
         ],
         hof=[('d3', dict(MaxDepth=3, MaxLen=3, UniverseName='u4', Big=True))],
